@@ -36,7 +36,9 @@ Files(r) ==
 \* one call for several ranks: every file that was written starts with ITS OWN rank's source events, only counter events appended
 WcMulti(r) ==
   [ no_exception |-> r.err = "",
-    counters_only_append_each |-> r.err = "" => \A f \in Rng(r.files) : f.hasWc => OnlyAppended(f.src, f.wc, {"C"}) ]
+    counters_only_append_each |-> r.err = "" => \A f \in Rng(r.files) : f.hasWc => OnlyAppended(f.src, f.wc, {"C"}),
+    \* the metadata survives too: rank discovery over the written files finds each one under the rank of its source
+    written_keeps_rank |-> r.err = "" => \A f \in Rng(r.files) : f.hasWc => f.disc = f.rank ]
 
 Clauses(r) == IF r.kind = "overlay" THEN Overlay(r) ELSE IF r.kind = "wcmulti" THEN WcMulti(r) ELSE Files(r)
 Verdict(r) == LET c == Clauses(r) IN { k \in DOMAIN c : ~c[k] }
